@@ -11,9 +11,15 @@ package main
 import (
 	"bytes"
 	"encoding/json"
+	"flag"
 	"fmt"
 	"math"
+	"os"
+	"runtime"
 	"strings"
+	"time"
+
+	"verifharness/workpool"
 
 	"github.com/bytedance/sonic/encoder"
 )
@@ -159,3 +165,66 @@ func encbufCases(seed int64, maxNeed int, emit func([]byte)) int {
 	}
 	return id
 }
+
+// encbufMain: the EncBuf universe on its own (used by C13 under both instruction sets: the expected bytes come from
+// encoding/json, so each environment is judged absolutely, and the buffer growth in the middle of a value - where the
+// generated code re-derives its registers - happens at every offset).
+func encbufMain(args []string) int {
+	fs := flag.NewFlagSet("encbuf", flag.ExitOnError)
+	out := fs.String("out", "", "summary")
+	seed := fs.Int64("seed", 1, "seed")
+	workers := fs.Int("workers", runtime.NumCPU(), "workers")
+	encbufMax := fs.Int("encbufmax", 400, "capacities up to min(text length, this) + 3 per value")
+	fs.Parse(args)
+	t0 := time.Now()
+	type sum struct {
+		Evals    int            `json:"evals"`
+		EncBuf   int            `json:"encbuf_cases"`
+		Bad      []poolBad      `json:"bad"`
+		BadBySig map[string]int `json:"bad_by_sig"`
+		Crashes  []string       `json:"crashes"`
+		WallS    float64        `json:"wall_s"`
+	}
+	S := sum{BadBySig: map[string]int{}}
+	ecases := make(chan []byte, 256)
+	go func() {
+		encbufCases(*seed, *encbufMax, func(b []byte) { ecases <- b })
+		close(ecases)
+	}()
+	err := workpool.Run(workpool.Options{Kind: "encbuf", Workers: *workers, Batch: 64,
+		OnResult: func(cl, rl []byte) {
+			var r poolRes
+			if json.Unmarshal(rl, &r) != nil {
+				return
+			}
+			S.EncBuf++
+			S.Evals += r.Evals
+			for _, b := range r.Bad {
+				S.BadBySig[b.Sig]++
+				if S.BadBySig[b.Sig] <= 3 && len(S.Bad) < 60 {
+					S.Bad = append(S.Bad, b)
+				}
+			}
+		},
+		OnCrash: func(c workpool.Crash) {
+			st := c.Stderr
+			if len(st) > 1500 {
+				st = st[len(st)-1500:]
+			}
+			S.Crashes = append(S.Crashes, c.Reason+" (guard page, EncBuf): "+string(c.Case)+"\n"+st)
+		}}, ecases)
+	if err != nil {
+		fmt.Fprintln(os.Stderr, "encbuf:", err)
+		return 2
+	}
+	S.WallS = time.Since(t0).Seconds()
+	b, _ := json.MarshalIndent(S, "", " ")
+	if *out != "" {
+		os.WriteFile(*out, b, 0o644)
+	} else {
+		os.Stdout.Write(b)
+	}
+	return 0
+}
+
+func init() { subcmds["encbuf"] = encbufMain }
